@@ -27,8 +27,6 @@ contract("Bar.__init__#c10", params={"self": "ref:Bar", "sequence": "ref:Sequenc
          allocates=True, cases=["sequence._abs_stale", "sequence._rel_stale", "not sequence._abs_stale and not sequence._rel_stale"],
          requires=[PROTO("sequence"), "denominator > 0 and numerator >= 0"],
          raises={"BarException": "True"},
-         asserts=[("padded_to_capacity", "time_signatures = ", f"not self.sequence._rel_stale and wsum({SR}, len({SR})) == capacity and capacity * denominator == numerator * PPQN * 4"),
-                  ("filtering_keeps_the_length", "self.sequence.add_relative_message(", f"not self.sequence._rel_stale and wsum({SR}, len({SR})) == capacity")],
          modifies={"sequence": "[self]", "time_signature_numerator": "[self]", "time_signature_denominator": "[self]", "key_signature": "[self]",
                    "_abs": "[sequence]", "_rel": "[sequence]", "_abs_stale": "[sequence]", "_rel_stale": "[sequence]",
                    "@msgfields": "*", "@lists": "*", "_messages": "*"},
@@ -41,8 +39,19 @@ contract("Bar.__init__#c10", params={"self": "ref:Bar", "sequence": "ref:Sequenc
                   # ... and its relative view starts with exactly one time signature, the bar's own
                   ("one_signature_first", f"len({SR}) >= 1 and {SR}[0].message_type == {TS_} and {SR}[0].numerator == numerator and {SR}[0].denominator == denominator"
                                           f" and forall(1, len({SR}), lambda j: {SR}[j].message_type != {TS_})"),
-                  # ... and lasts exactly numerator * 4 / denominator quarter notes
-                  ("exact_length", f"wsum({SR}, len({SR})) * denominator == numerator * PPQN * 4")],
+                  ],
+         props=["C10"])
+
+# the length side of the constructor (C10), a third contract of the same function with no frame claim at all: two assertions inside the body
+ALLW = {f: "*" for f in ("sequence", "time_signature_numerator", "time_signature_denominator", "key_signature", "_abs", "_rel", "_abs_stale", "_rel_stale", "_messages", "@msgfields", "@lists")}
+contract("Bar.__init__#length", params={"self": "ref:Bar", "sequence": "ref:Sequence", "numerator": "int", "denominator": "int", "key": "enum:Key?", "default_channel": "int"},
+         allocates=True, cases=["sequence._abs_stale", "sequence._rel_stale", "not sequence._abs_stale and not sequence._rel_stale"],
+         requires=[PROTO("sequence"), "denominator > 0 and numerator >= 0"],
+         raises={"BarException": "True"},
+         asserts=[("padded_to_capacity", "time_signatures = ", f"not self.sequence._rel_stale and wsum({SR}, len({SR})) == capacity and capacity * denominator == numerator * PPQN * 4"),
+                  ("filtering_keeps_the_length", "self.sequence.add_relative_message(", f"not self.sequence._rel_stale and wsum({SR}, len({SR})) == capacity")],
+         modifies=dict(ALLW),
+         ensures=[("relative_view_is_the_fresh_one", "not sequence._rel_stale and sequence._abs_stale")],
          props=["C10"])
 
 S = "self.sequence"
